@@ -1,0 +1,13 @@
+//go:build verif
+
+package resolver
+
+// VerifVisit, when set, is told the name of every recipe the outer loop of Resolve visits,
+// in the order the runtime picked for the map iteration. Verification builds only.
+var VerifVisit func(name string)
+
+func verifVisit(name string) {
+	if VerifVisit != nil {
+		VerifVisit(name)
+	}
+}
